@@ -149,6 +149,10 @@ class H:
         # lost callbacks of OTHER tasks are also violations of C12
         if self.fault_injected and set(props) & {"C02", "C03", "C04", "C05", "C08"} and "C12" not in props:
             props.append("C12")
+        # C07 "tasks and pending requests of other groups are untouched and keep progressing": once a group was cancelled, lost
+        # invocations / elements of requests that were NOT cancelled are also violations of C07
+        if any(r.cancelled for r in self.reqs) and set(props) & {"C04", "C05"} and "C07" not in props:
+            props.append("C07")
         self.viol.append({"props": props, "what": what})
 
     # ---- operations --------------------------------------------------------------------------------------
@@ -169,10 +173,40 @@ class H:
         else:
             kind = rnd.choice(["apply", "apply", "map", "starmap", "doublestarmap"])
             ecb, ccb = self.callbacks()
+            # sometimes an explicit group name out of a small set: a name that is taken must be rejected without a trace,
+            # a name that was cancelled / never used is accepted at once (C09, C07, C10)
+            gname = rnd.choice(["named-0", "named-1"]) if rnd.random() < 0.3 else None
+            gkw = {} if gname is None else {"group_name": gname}
+            if gname is not None and gname in p._task_groups:
+                from asyncio_taskpool import exceptions as ex
+
+                before = (set(p._task_groups), {k: len(v) for k, v in p._group_meta_tasks_running.items()}, p._num_started, self.serial)
+                touched = []
+
+                def gen():
+                    touched.append(1)
+                    yield (tag, 0)
+
+                try:
+                    if kind == "apply":
+                        p.apply(self.work, args=(tag, "dup"), num=2, **gkw)
+                    else:
+                        getattr(p, kind)(self.work_pair if kind == "map" else self.work, gen(), **gkw)
+                    self.v(["C09", "C10"], f"{kind} with the taken group name {gname!r} was accepted")
+                except ex.TaskGroupAlreadyExists:
+                    pass
+                except (ex.PoolIsLocked, ex.PoolIsClosed):
+                    pass
+                await drain()
+                after = (set(p._task_groups), {k: len(v) for k, v in p._group_meta_tasks_running.items()}, p._num_started, self.serial)
+                if after != before or touched:
+                    self.v("C09", f"a rejected {kind} (taken name {gname!r}) left a trace: {before} -> {after}, iterable touched: {bool(touched)}")
+                self.log.append(f"{kind} with taken name {gname} (rejected)")
+                return
             if kind == "apply":
                 n = rnd.randint(1, 3)
                 try:
-                    g = p.apply(self.work, args=(tag, "a"), num=n, end_callback=ecb, cancel_callback=ccb)
+                    g = p.apply(self.work, args=(tag, "a"), num=n, end_callback=ecb, cancel_callback=ccb, **gkw)
                 except Exception as e:
                     return self.rejected("apply", e)
                 r = Req("apply", g, n, [(tag, "a")] * n)
@@ -183,7 +217,9 @@ class H:
                 it = {"map": [(tag, x) for x in xs], "starmap": [(tag, x) for x in xs], "doublestarmap": [{"tag": tag, "x": x} for x in xs]}[kind]
                 fn = self.work if kind != "map" else self.work_pair
                 try:
-                    g = getattr(p, kind)(fn, iter(it), num_concurrent=nc, end_callback=ecb, cancel_callback=ccb)
+                    g = getattr(p, kind)(fn, iter(it), num_concurrent=nc, end_callback=ecb, cancel_callback=ccb, **gkw)
+                    if gname is not None and g != gname:
+                        self.v("C10", f"{kind}(group_name={gname!r}) returned the group name {g!r}")
                 except Exception as e:
                     return self.rejected(kind, e)
                 r = Req(kind, g, m, xs)
@@ -296,6 +332,32 @@ class H:
         except Exception:
             pass
 
+    async def op_cancel_and_reuse(self):
+        """cancel_group(g) and, in the same tick, a new map under the same explicit name g: the old request must stop, the new
+        one must run completely (C07 'its name is free')"""
+        if self.simple or self.locked:
+            return
+        p = self.pool
+        live = [r for r in self.reqs if not r.cancelled and r.group in p._task_groups and r.group.startswith("named-")]
+        if not live:
+            return
+        r = self.rnd.choice(live)
+        p.cancel_group(r.group)
+        r.cancelled = True
+        r.started_at_cancel = len(r.started)
+        tag = len(self.reqs)
+        xs = list(range(self.rnd.randint(1, 3)))
+        try:
+            g = p.map(self.work_pair, iter([(tag, x) for x in xs]), num_concurrent=1, group_name=r.group, end_callback=self.on_end, cancel_callback=self.on_cancel)
+        except Exception as e:
+            self.v(["C07", "C10"], f"the name {r.group!r} is not free right after cancel_group: {type(e).__name__}")
+            return
+        nr = Req("map", g, len(xs), xs)
+        nr.nc = 1
+        self.reqs.append(nr)
+        self.req_by_tag[tag] = nr
+        self.log.append(f"cancel_group {r.group} + map->{g} n={len(xs)} in the same tick")
+
     async def op_flush(self):
         p = self.pool
         running_before = dict(p._tasks_running)
@@ -352,6 +414,12 @@ class H:
             self.v("C01", f"{where}: {max(len(self.live), self.max_live)} task bodies active in a pool of size {size}")
         if p.num_running > size:
             self.v("C01", f"{where}: num_running={p.num_running} > size {size}")
+        # a task parked inside its end / cancel callback counts as ended / cancelled - nothing (in particular no flush) forgets it
+        for kind, i in sorted(self.cb_live):
+            reg = p._tasks_ended if kind == "end" else p._tasks_cancelled
+            if i not in reg:
+                self.v(["C13", "C03"], f"{where}: task {i} is inside its {kind} callback but is not counted as {'ended' if kind == 'end' else 'cancelled'} "
+                                       f"(running={i in p._tasks_running}, cancelled={i in p._tasks_cancelled}, ended={i in p._tasks_ended})")
         ids = sorted(list(p._tasks_running) + list(p._tasks_cancelled) + list(p._tasks_ended))
         if len(ids) != len(set(ids)):
             self.v("C03", f"{where}: a task id is in two registries: {ids}")
@@ -389,7 +457,7 @@ class H:
 
     # ---- driver --------------------------------------------------------------------------------------------
     async def run(self, nops: int):
-        ops = [(self.op_spawn, 5), (self.op_finish, 5), (lambda: self.op_finish(fail=True), 1), (self.op_cancel, 2), (self.op_cancel_group, 2), (self.op_flush, 3), (self.op_lock_probe, 1), (self.op_release_callback, 3), (self.op_stop, 2), (self.op_close_now, 2)]
+        ops = [(self.op_spawn, 5), (self.op_finish, 5), (lambda: self.op_finish(fail=True), 1), (self.op_cancel, 2), (self.op_cancel_group, 2), (self.op_flush, 3), (self.op_lock_probe, 1), (self.op_release_callback, 3), (self.op_stop, 2), (self.op_close_now, 2), (self.op_cancel_and_reuse, 2)]
         bag = [f for f, w in ops for _ in range(w)]
         closing_bag = [self.op_finish] * 4 + [self.op_release_callback] * 4 + [self.op_cancel, self.op_spawn]
         for k in range(nops):
